@@ -378,7 +378,7 @@ PROPS["C10"] = dict(
                 "entity id as fault location queued (C10_send_cancel), transmitted when the link is free, and the sender ends by Abandon at the ACK / inactivity limit "
                 "(C10_send_cancel_ends). Bounded time of those ends: C17 + C03. Tie to the code: recv/send engines with cancel injected before/after every PDU."),
     level_note=RECV_SEND_NOTE + " Both-sides-end over a real link (two daemons) is exercised by the daemon engine (C02/C11) when registered; here each side is proved separately.",
-    rule=("daemon engine (two real daemons): in every third multi-transaction scenario one acknowledged six-segment transfer is cancelled through its daemon (UserPrimitive::Cancel) right after its Put - oracles daemon_cancel (the sender reports CancelReceived; the receiver reports it too or had completed before), daemon_cancel_no_file, daemon_cancel_ends; the other transactions must be unaffected (C11 others_unaffected). recv + send engines as in C04/C07: one history in three contains a user request at a random position (cancel / suspend-resume / EOF(cancel) from the peer / report), "
+    rule=("daemon engine (two real daemons): in every third multi-transaction scenario one acknowledged six-segment transfer is cancelled through its daemon (UserPrimitive::Cancel) right after its Put - oracles daemon_cancel (the sender reports CancelReceived or, when the receiver had completed before the cancel took effect, has at least transmitted its EOF(Cancel received)), daemon_cancel_no_file, daemon_cancel_ends; or it is cancelled at the RECEIVING daemon 100 ms after the Put while every EOF of that sender stays on the link for 450 ms - oracle daemon_cancel_recv (receiver and sender both report CancelReceived, nothing under the destination name, both ended); the other transactions must be unaffected (C11 others_unaffected). recv + send engines as in C04/C07: one history in three contains a user request at a random position (cancel / suspend-resume / EOF(cancel) from the peer / report), "
           "followed by losses of the handshake PDUs (wind-down rounds without answers) or the ACK at a random round. Oracles no_partial (filestore listing before/after every "
           "step), cancel_closure_finished. Non-trivial = a PDU was emitted or an indication raised."),
     assumptions=["C10_no_partial second part: the handler configured for CheckLimitReached is not Ignore (with Ignore an incomplete unacknowledged transfer is stored on purpose, "
